@@ -510,8 +510,12 @@ impl SchedX {
     }
 
     fn base_ctx(&mut self, commits: &[u8]) -> (Arc<Ctx>, PathBuf) {
+        self.base_ctx_cfg(commits, &cfg())
+    }
+
+    fn base_ctx_cfg(&mut self, commits: &[u8], cf: &Cfg) -> (Arc<Ctx>, PathBuf) {
         let dir = self.fresh();
-        let n = open_nomt::<B3>(&dir, &cfg()).expect("open");
+        let n = open_nomt::<B3>(&dir, cf).expect("open");
         for v in commits {
             commit_kv(&n, &[(ka(), Some(val(*v))), (kb(), Some(val(*v)))]).expect("base commit");
         }
@@ -547,6 +551,43 @@ impl SchedX {
                         }),
                     ],
                     finish: Box::new(move || final_check(c3, dir, Some(1), &[])),
+                }
+            }
+            // three coexisting sessions ("Multiple sessions may coexist"): each thread begins a
+            // session, reads, and finishes it into a changeset that is dropped; every order of
+            // the three begins and finishes. H10: rollback on (every session has a reverse-delta
+            // worker); H10w: warm-up on as well (every session has a warm-up worker). No session
+            // may wait for another one to end.
+            "H10" | "H10w" => {
+                let mut cf = cfg();
+                cf.warm_up = name == "H10w";
+                let (c, dir) = self.base_ctx_cfg(&[0], &cf);
+                let mk = |c: Arc<Ctx>, i: u8| -> Box<dyn FnOnce() + Send> {
+                    Box::new(move || {
+                        let s = c.n.begin_session(SessionParams::default());
+                        s.warm_up(ka());
+                        sp("T.between-begin-and-finish");
+                        match s.read(ka()) {
+                            Ok(v) if v.as_ref().map(|v| v[0]) == Some(0) => {}
+                            Ok(v) => c.err(format!("T{i}: session read {v:?}, expected v0")),
+                            Err(e) => c.err(format!("T{i}: read failed: {e:#}")),
+                        }
+                        let mut a = vec![(ka(), KeyReadWrite::Write(Some(val(i)))), (kb(), KeyReadWrite::Write(Some(val(i))))];
+                        a.sort_by(|x, y| x.0.cmp(&y.0));
+                        match s.finish(a) {
+                            Ok(fin) => {
+                                c.ob(format!("T{i}:prepared"));
+                                drop(fin);
+                            }
+                            Err(e) => c.err(format!("T{i}: finish failed: {e:#}")),
+                        }
+                        drop(c);
+                    })
+                };
+                let (c1, c2, c3, c4) = (c.clone(), c.clone(), c.clone(), c);
+                Execution {
+                    threads: vec![mk(c1, 1), mk(c2, 2), mk(c3, 3)],
+                    finish: Box::new(move || final_check(c4, dir, Some(0), &[])),
                 }
             }
             // reader ∥ non-blocking writer with a prepared changeset
@@ -1943,8 +1984,8 @@ impl Engine for SchedX {
         let thorough = tier == "thorough";
         let (harnesses, rule): (Vec<&str>, &str) = match prop {
             "C15" => (
-                vec!["H1", "H2", "H3", "H3nb", "H3ov", "H4", "H5", "H6", "H6w", "H6r", "H7", "H8", "H8ov", "H8r", "H8rr", "H9"],
-                "schedx: closed harnesses of 2–3 real threads on two colliding keys (same value leaf, same merkle page), values stamped with the writer's version, rollback enabled: H1 reader∥blocking writer; H2 reader∥non-blocking writer (prepared changeset, retried blocking when handed back); H3/H3nb/H3ov two writers with changesets on one base (blocking / non-blocking / overlay) followed by reopen and rollback(1); H4 reader∥rollback; H5 reader∥writer∥writer; H6 one thread with two overlapping sessions∥writer; H6w one thread, warm-up on and one commit worker, two overlapping sessions, the second one finished while the first is alive; H6r one thread, rollback enabled, three overlapping sessions, the third one finished while the first two are alive; H8/H8ov/H8r a changeset or overlay prepared on the current state ∥ rollback(1) [∥ a reader]: the writers serialise — commit then rollback (final = the state before the commit, one further rollback possible) or rollback then commit (the changeset is refused, final = the rolled-back state); H8rr two rollback(1) racing after three commits (both served, then a third one empties the store); H9 a prepared changeset in a blocking commit ∥ a witnessed session being finished (point before the merkle join): the committed root may not change between begin_session and the return of finish(), every witnessed path verifies against the session's previous root, exactly one of the two wins; H7 two threads proving different keys (present and absent) through ONE shared session on a cold store, with scheduling points at every I/O submission and every wait for a completion of the calling threads (the scheduler lets outstanding reads complete before it decides, so the enabled set does not depend on I/O speed). EVERY schedule of the visible points (API lock acquisitions with parking_lot's writer-preferring FIFO fairness modelled in the scheduler, the read-transaction wait, harness points between session operations) with ≤c preemptions is executed on a fresh store, c = 0,1,2 (thorough 3). Oracle per schedule: terminates (no enabled thread = deadlock); all reads and the proof of one session agree with one committed version and with session.prev_root(); exactly one of two competing changesets wins; final state, root and state after reopen are the winner's; rollback(1) restores the base. One case = one harness × one bound; evaluations = cases, transitions = scheduler steps, states = distinct schedules (trace digests).",
+                vec!["H1", "H2", "H3", "H3nb", "H3ov", "H4", "H5", "H6", "H6w", "H6r", "H7", "H8", "H8ov", "H8r", "H8rr", "H9", "H10", "H10w"],
+                "schedx: closed harnesses of 2–3 real threads on two colliding keys (same value leaf, same merkle page), values stamped with the writer's version, rollback enabled: H1 reader∥blocking writer; H2 reader∥non-blocking writer (prepared changeset, retried blocking when handed back); H3/H3nb/H3ov two writers with changesets on one base (blocking / non-blocking / overlay) followed by reopen and rollback(1); H4 reader∥rollback; H5 reader∥writer∥writer; H6 one thread with two overlapping sessions∥writer; H6w one thread, warm-up on and one commit worker, two overlapping sessions, the second one finished while the first is alive; H6r one thread, rollback enabled, three overlapping sessions, the third one finished while the first two are alive; H10/H10w three threads, each begins a session, reads and finishes it into a changeset that is dropped — three coexisting sessions in every order of begins and finishes, with rollback on (H10: a reverse-delta worker per session) and with warm-up on as well (H10w: a warm-up worker per session): no session waits for another one to end; H8/H8ov/H8r a changeset or overlay prepared on the current state ∥ rollback(1) [∥ a reader]: the writers serialise — commit then rollback (final = the state before the commit, one further rollback possible) or rollback then commit (the changeset is refused, final = the rolled-back state); H8rr two rollback(1) racing after three commits (both served, then a third one empties the store); H9 a prepared changeset in a blocking commit ∥ a witnessed session being finished (point before the merkle join): the committed root may not change between begin_session and the return of finish(), every witnessed path verifies against the session's previous root, exactly one of the two wins; H7 two threads proving different keys (present and absent) through ONE shared session on a cold store, with scheduling points at every I/O submission and every wait for a completion of the calling threads (the scheduler lets outstanding reads complete before it decides, so the enabled set does not depend on I/O speed). EVERY schedule of the visible points (API lock acquisitions with parking_lot's writer-preferring FIFO fairness modelled in the scheduler, the read-transaction wait, harness points between session operations) with ≤c preemptions is executed on a fresh store, c = 0,1,2 (thorough 3). Oracle per schedule: terminates (no enabled thread = deadlock); all reads and the proof of one session agree with one committed version and with session.prev_root(); exactly one of two competing changesets wins; final state, root and state after reopen are the winner's; rollback(1) restores the base. One case = one harness × one bound; evaluations = cases, transitions = scheduler steps, states = distinct schedules (trace digests).",
             ),
             "C20" => (
                 vec!["O1", "O2", "O2x3", "O3", "O4", "L1", "L2", "L3", "L4", "L5", "P1", "P1k"],
